@@ -6,7 +6,8 @@ SIGKILL) and kills itself with SIGKILL when the crash-point counter reaches ``ki
 All observation is done from here (harness side, no source hook): the sqlite3 trace callback of the
 connections (every statement sqlite runs, including the implicit BEGIN / COMMIT of the python driver and every
 statement inside executescript), wrappers around Database.execute/executescript/commit (call boundaries) and
-around the four insert methods (the acknowledgement point of a record).
+around the four insert methods (the acknowledgement point of a record) and around Database.__enter__/__exit__
+(the "with database:" blocks that defer commits).
 
 usage: python c19_child.py <config.json>
 """
@@ -14,6 +15,7 @@ import hashlib
 import json
 import os
 import signal
+import sqlite3
 import sys
 import time
 
@@ -29,12 +31,23 @@ def main():
     kill_at = cfg.get("kill_at")
     counter = [0]
 
+    # crash points that differ from their predecessor: something happened in between (a statement other than a
+    # SELECT ran, an insert call returned or raised, a block was entered or left, an item was completed). A kill at
+    # any other point leaves exactly the files and acknowledgements of the kill at the point before it.
+    distinct, dirty = [], [True]
+    quiet = ("call", "ret", "item", "observe")
+
     def log(ev):
+        if ev["e"] not in quiet and not (ev["e"] == "sql" and ev["s"].upper().startswith("SELECT")):
+            dirty[0] = True
         os.write(fd, (json.dumps(ev, separators=(",", ":")) + "\n").encode())
 
     def point(label):
         """One crash point. The kill is logged first, so every other logged event is known to have happened."""
         counter[0] += 1
+        if dirty[0]:
+            distinct.append(counter[0])
+            dirty[0] = False
         if kill_at is not None and counter[0] == kill_at:
             log({"e": "kill", "k": kill_at, "at": label})
             os.kill(os.getpid(), signal.SIGKILL)
@@ -68,6 +81,33 @@ def main():
         self._connection.set_trace_callback(on_statement)
     Database._connect = connect
 
+    def dbname(db):
+        return "att" if type(db).__name__ == "AttestationsDB" else "id"
+
+    # ---- "with database:" blocks
+    orig_enter, orig_exit = Database.__enter__, Database.__exit__
+
+    def enter(self):
+        res = orig_enter(self)
+        log({"e": "enter", "db": dbname(self)})
+        point("entered:" + dbname(self))
+        return res
+
+    def leave(self, exc_type, exc_value, tb):
+        from ipv8.database import IgnoreCommits
+        how = "ok" if exc_type is None else "ignore" if isinstance(exc_value, IgnoreCommits) else "error"
+        try:
+            res = orig_exit(self, exc_type, exc_value, tb)
+        except BaseException as e:  # noqa: BLE001
+            log({"e": "leave", "db": dbname(self), "how": "error", "exc": type(e).__name__})
+            raise
+        if how == "ignore" and not res:
+            how = "error"     # the exception travels on to the caller
+        log({"e": "leave", "db": dbname(self), "how": how})
+        point("left:%s:%s" % (dbname(self), how))
+        return res
+    Database.__enter__, Database.__exit__ = enter, leave
+
     # ---- call level
     def wrap_call(fname):
         orig = getattr(Database, fname)
@@ -84,7 +124,11 @@ def main():
             except BaseException as e:  # noqa: BLE001
                 log({"e": "raise", "fn": fname, "exc": type(e).__name__, "msg": str(e)[:200]})
                 raise
-            log({"e": "ret", "fn": fname})
+            ev = {"e": "ret", "fn": fname}
+            if fname == "commit":
+                ev["db"] = dbname(self)
+                ev["done"] = bool(res)    # False: Database.commit() deferred the commit
+            log(ev)
             point("after:" + fname)
             return res
         setattr(Database, fname, wrapper)
@@ -135,16 +179,25 @@ def main():
         log(observe(im, wdb, pseudonym, hexs))
         point("observed")
 
+    known = {}     # credentials created by THIS process (saves the workload driver a database scan per lookup)
+
     def find_metadata(name):
+        if name in known:
+            return known[name]
         for cred in pseudonym.get_credentials():
             if json.loads(cred.metadata.serialized_json_dict).get("name") == name:
                 return cred.metadata
         raise LookupError("workload refers to credential %r which is not stored" % name)
 
-    for i in cfg["todo"]:
-        item = plan["items"][i]
-        log({"e": "item", "i": i})
-        point("item:%d" % i)
+    class Gone(Exception):
+        pass
+
+    class BatchAborted(Exception):
+        """The application error that ends a "with database:" block of the workload."""
+
+    databases = {"id": im.database, "att": wdb}
+
+    def do_item(item):
         try:
             for ref in (item.get("after"), item.get("cred")):
                 if ref:
@@ -152,14 +205,34 @@ def main():
         except LookupError as e:
             # an earlier item of the workload is gone although it had completed: nothing to build on. The statement
             # log and the observation above already carry that fact to TLC; the workload just stops here.
-            log({"e": "item_abort", "i": i, "why": str(e)})
-            break
-        if item["op"] == "credential":
+            raise Gone(str(e)) from e
+        if item["op"] == "batch":
+            # the items run inside "with database:" blocks of the listed databases, which are left normally ("ok"),
+            # by raise IgnoreCommits ("ignore") or by an ordinary exception that the application catches ("error")
+            import contextlib
+
+            from ipv8.database import IgnoreCommits
+            try:
+                with contextlib.ExitStack() as stack:
+                    for d in item["dbs"]:
+                        stack.enter_context(databases[d])
+                    for j, sub in enumerate(item["items"]):
+                        log({"e": "item", "i": i, "j": j, "n": counter[0]})
+                        point("item:%d.%d" % (i, j))
+                        do_item(sub)
+                    if item["end"] == "ignore":
+                        raise IgnoreCommits
+                    if item["end"] == "error":
+                        raise BatchAborted
+            except BatchAborted:
+                pass
+        elif item["op"] == "credential":
             after = find_metadata(item["after"]) if item.get("after") else None
             cred = pseudonym.create_credential(hashlib.sha3_256(item["name"].encode()).digest(),
                                                {"name": item["name"]}, after)
             if cred is None:
                 raise RuntimeError("create_credential refused")
+            known[item["name"]] = cred.metadata
         elif item["op"] == "attest":
             md = find_metadata(item["cred"])
             auth = auths[item["auth"]]
@@ -170,20 +243,44 @@ def main():
             from ipv8.attestation.wallet.bonehexact.structs import BonehAttestation
             from ipv8.attestation.wallet.primitives.structs import BonehPrivateKey
             ahash = bytes.fromhex(item["hash"])
-            if wdb.get_attestation_by_hash(ahash):
-                log({"e": "item_skip", "i": i})     # stored before the crash: a plain INSERT would raise
-            else:
-                sk = BonehPrivateKey.unserialize(bytes.fromhex(plan["boneh_key"]))
-                att = BonehAttestation.unserialize(bytes.fromhex(item["attestation"]), "id_metadata")
+            stored = wdb.get_attestation_by_hash(ahash)
+            if stored and not item.get("again"):
+                return "item_skip"     # stored before the crash: a plain INSERT would raise
+            sk = BonehPrivateKey.unserialize(bytes.fromhex(plan["boneh_key"]))
+            att = BonehAttestation.unserialize(bytes.fromhex(item["attestation"]), "id_metadata")
+            try:
                 wdb.insert_attestation(att, ahash, sk, "id_metadata")
+            except sqlite3.IntegrityError:
+                # "again": the application stores a blob it has stored before; the insert raises, the application
+                # carries on
+                if not (stored and item.get("again")):
+                    raise
         else:
             raise RuntimeError("unknown op")
-        log({"e": "item_done", "i": i})
+        return "item_done"
+
+    for i in cfg["todo"]:
+        item = plan["items"][i]
+        log({"e": "item", "i": i, "n": counter[0]})
+        point("item:%d" % i)
+        try:
+            outcome = do_item(item)
+        except Gone as e:
+            log({"e": "item_abort", "i": i, "why": str(e)})
+            break
+        log({"e": outcome, "i": i})
         point("item-done:%d" % i)
 
-    im.database.close()
-    wdb.close()
-    log({"e": "exit", "points": counter[0]})
+    try:
+        im.database.close()
+        wdb.close()
+    except Exception as e:  # noqa: BLE001
+        # close() refused (it commits first): the process ends with its connections dropped, uncommitted work is lost
+        log({"e": "close_error", "exc": type(e).__name__, "msg": str(e)[:200], "points": counter[0],
+             "distinct": distinct})
+        os.close(fd)
+        os._exit(0)
+    log({"e": "exit", "points": counter[0], "distinct": distinct})
     os.close(fd)
 
 
@@ -198,6 +295,23 @@ def observe(im, wdb, pseudonym, hexs):
         rows[table] = [hexs(r) for r in im.database.execute("SELECT * FROM %s" % table)]  # noqa: S608
     rows["att"] = [hexs(r) for r in wdb.get_all()]
     problems = []
+    rebuilt = {"tree": [], "creds": [], "atts": []}
+    try:
+        pk = pseudonym.public_key.key_to_bin()
+        # the objects PseudonymManager.__init__ built from the file: the token tree and the credential list
+        for h, tok in pseudonym.tree.elements.items():
+            rebuilt["tree"].append({"row": hexs((pk, *tok.to_database_tuple())),
+                                    "ok": bool(tok.get_hash() == h and pseudonym.tree.verify(tok))})
+        for cred in pseudonym.credentials:
+            md = cred.metadata
+            rebuilt["creds"].append({"row": hexs((pk, *md.to_database_tuple())),
+                                     "ok": bool(md.verify(pseudonym.public_key))})
+            for att in cred.attestations:
+                authority = im.database.get_authority(att)
+                rebuilt["atts"].append({"row": hexs((pk, authority, *att.to_database_tuple())),
+                                        "ok": bool(att.verify(default_eccrypto.key_from_public_bin(authority)))})
+    except Exception as e:  # noqa: BLE001
+        problems.append("inspecting the rebuilt pseudonym raised %s: %s" % (type(e).__name__, str(e)[:120]))
     try:
         tree = pseudonym.tree
         if len(tree.elements) != len(rows["Tokens"]):
@@ -239,7 +353,7 @@ def observe(im, wdb, pseudonym, hexs):
                 problems.append("stored attestation blob does not round-trip")
     except Exception as e:  # noqa: BLE001
         problems.append("reload raised %s: %s" % (type(e).__name__, str(e)[:120]))
-    return {"e": "observe", "rows": rows, "verifies": not problems, "problems": problems}
+    return {"e": "observe", "rows": rows, "verifies": not problems, "problems": problems, "rebuilt": rebuilt}
 
 
 if __name__ == "__main__":
